@@ -12,7 +12,7 @@ pub fn def() -> CheckDef {
         id: "C02",
         title: "Task lifecycle: only legal transitions, terminal states are final",
         case,
-        rule: "case = generated model (control flow + catches) x scripted client using all action kinds (with duplicates, missing/extra options) x adversary issuing any of the ten actions at any task ever seen (open, terminal, step, branch, root, unknown) x seeded schedule; the H2 trace of every task state write is monitored. non-trivial = at least one client/adversary action was accepted and one rejected, or a catch revived a task; distinct = distinct (scenario hash, schedule hash)",
+        rule: "case = generated model (control flow + catches + generators + lifecycle hooks) x scripted client using all action kinds (with duplicates, missing/extra options; a sixth of the cases play a multi-step cancel history on generator-free models: first interrupts completed, one closed by skip/submit/remove, every later one cancels the act completed last, many steps beginning with an act skipped by its own condition) x adversary issuing any of the ten actions at any task ever seen (open, terminal, step, branch, root, unknown) x seeded schedule; the H2 trace of every task state write is monitored. non-trivial = at least one client/adversary action was accepted and one rejected, or a catch revived a task; distinct = distinct (scenario hash, schedule hash)",
         level: "exploration",
         assumptions: &["monotone simulated clock", "state writes are observed through hook H2 (Task::set_state / set_pure_state)", "no storage errors are injected"],
         probes: &["probe.action_on_terminal_task", "probe.catch_revive", "probe.rejected_action", "probe.duplicate_action", "probe.cancel_accepted"],
